@@ -1,3 +1,4 @@
+import MetricsVerif.Model.Sched
 /-
 Model of `RecorderOnceCell` (metrics/src/recorder/cell.rs) as a step machine at the granularity of one
 shared-memory operation, the PC names being the `metrics::verif::point` ids placed before each operation.
@@ -83,11 +84,6 @@ def stepThread (o : Ord) (s : Sys) (t : Thread) : Sys × Thread :=
     let s' := if t.synced then s else { s with raced := true }
     (s', t.advance (match s.cell with | some r => .some r | none => .torn))
   | _, _ => (s, t)      -- `done`, or a pc that does not fit the call: no step
-
-def setAt {α : Type} : List α → Nat → α → List α
-  | [], _, _ => []
-  | _ :: xs, 0, a => a :: xs
-  | x :: xs, n + 1, a => x :: setAt xs n a
 
 def step (o : Ord) (s : Sys) (tid : Nat) : Sys :=
   match s.threads[tid]? with
